@@ -86,7 +86,8 @@ Print Assumptions C09_checker_sound.
 
 (* ---- transport --------------------------------------------------------------------------- *)
 
-(* for all message sequences and all fault schedules (every outcome of every Write): the bytes
+(* for all message sequences, all fault schedules (every outcome of every Write) and all context
+   behaviours (live, already done, cancelled between two Writes of a frame): the bytes
    on the wire are whole frames, in order, plus at most one torn frame, and once a frame is
    torn every later NewMessage/send fails without writing *)
 Theorem C09_torn_write_stops_stream : forall orc ops st rs,
@@ -99,8 +100,8 @@ Print Assumptions C09_torn_write_stops_stream.
 (* a Write that returns 0 < n < len is the last thing that reaches the wire *)
 Theorem C09_after_short_write_nothing_written : forall orc ops1 f ops2 st1 rs1 st1' w,
   run VFixed orc ops1 = (st1, rs1) -> broken st1 = false ->
-  encode_bufs orc f st1 0 = (st1', w, EPartial) ->
-  forall st rs, run VFixed orc (ops1 ++ (false, f) :: ops2) = (st, rs) ->
+  encode_bufs orc f st1 0 None = (st1', w, EPartial) ->
+  forall st rs, run VFixed orc (ops1 ++ (CLive, f) :: ops2) = (st, rs) ->
   wire st = wire st1' /\ rs = rs1 ++ SErr :: map (fun _ => SNmErr) ops2.
 Proof. exact after_short_write_nothing_written. Qed.
 Print Assumptions C09_after_short_write_nothing_written.
